@@ -154,8 +154,16 @@ fn run_scn(s: &Scn) -> Result<Obs, String> {
                     sleep_until(t0, 400 + s.jitter);
                     set_flag(&server, &mut obs);
                 }
-                // stay open across 2-3 deadlines
-                sleep_until(t0, 100 + t_ms.max(1000) * 23 / 10 + s.jitter);
+                // while this connection is being served the idle countdown must not end the
+                // server: a further short connection after the first deadline is still served
+                // (only when the pool has room for a second connection)
+                if s.idle > 0 && s.flag != FlagPlan::During && s.pool.1 > 1 {
+                    sleep_until(t0, 100 + t_ms * 15 / 10 + s.jitter);
+                    one_echo(&address, "while-long-lived", t0, &mut obs, true);
+                }
+                // stay open across 2-3 deadlines (counted from the last accepted connection)
+                let base_ms = obs.connects.iter().copied().max().unwrap_or(100) as u64;
+                sleep_until(t0, base_ms.max(100) + t_ms.max(1000) * 23 / 10 - if s.idle > 0 && s.flag != FlagPlan::During && s.pool.1 > 1 { t_ms * 15 / 10 } else { 0 } + s.jitter);
                 // still served? a second request must be answered
                 let _ = c.write_all(&echo("long2"));
                 if !matches!(c.read_frame(Duration::from_secs(10)), ReadEv::Frame(_)) {
